@@ -13,9 +13,10 @@ open Alpaqa.C17 Alpaqa.Gen.C17
 def PBound {V : Type} (P : List Char → Option (V × Nat)) : Prop :=
   ∀ l v k, P l = some (v, k) → k ≤ l.length
 
-theorem readSingle_le {V : Type} (P : List Char → Option (V × Nat)) (hP : PBound P) (s : List Char) (e : Nat)
-    (he : e ≤ s.length) (v : V) (ptr : Nat) (h : readSingle P s 0 e = some (v, ptr)) : ptr ≤ e := by
-  unfold readSingle at h
+theorem readSingleG_le {V : Type} (rej : Bool) (P : List Char → Option (V × Nat)) (hP : PBound P)
+    (s : List Char) (e : Nat) (he : e ≤ s.length) (v : V) (ptr : Nat)
+    (h : readSingleG rej P s 0 e = some (v, ptr)) : ptr ≤ e := by
+  unfold readSingleG at h
   simp only [singleFails] at h
   have hlen : (List.take e s).length = e := by rw [List.length_take]; omega
   by_cases hs : singleSkipPlus 0 e (s.getD 0 ' ') = true
@@ -23,17 +24,19 @@ theorem readSingle_le {V : Type} (P : List Char → Option (V × Nat)) (hP : PBo
       simp [singleSkipPlus] at hs
       omega
     simp only [hs, if_true] at h
-    cases hp : P (List.drop (0 + 1) (List.take e s)) with
-    | none => rw [hp] at h; simp at h
-    | some vk =>
-      obtain ⟨v', k⟩ := vk
-      have := hP _ _ _ hp
-      rw [hp] at h
-      simp at h
-      rw [List.length_drop, hlen] at this
-      omega
+    split at h
+    · exact absurd h (by simp)
+    · cases hp : P (List.drop (0 + 1) (List.take e s)) with
+      | none => rw [hp] at h; simp at h
+      | some vk =>
+        obtain ⟨v', k⟩ := vk
+        have := hP _ _ _ hp
+        rw [hp] at h
+        simp at h
+        rw [List.length_drop, hlen] at this
+        omega
   · have hs' : singleSkipPlus 0 e (s.getD 0 ' ') = false := by simpa using hs
-    simp only [hs', Bool.false_eq_true, if_false] at h
+    simp only [hs', Bool.false_and, Bool.false_eq_true, if_false] at h
     cases hp : P (List.drop 0 (List.take e s)) with
     | none => rw [hp] at h; simp at h
     | some vk =>
@@ -44,6 +47,36 @@ theorem readSingle_le {V : Type} (P : List Char → Option (V × Nat)) (hP : PBo
       rw [List.length_drop, hlen] at this
       omega
 
+theorem readSingle_le {V : Type} (P : List Char → Option (V × Nat)) (hP : PBound P) (s : List Char) (e : Nat)
+    (he : e ≤ s.length) (v : V) (ptr : Nat) (h : readSingle P s 0 e = some (v, ptr)) : ptr ≤ e :=
+  readSingleG_le _ P hP s e he v ptr h
+
+/-- the token without a leading `+`: `read_single` is the oracle on the window -/
+theorem readSingleG_noplus {V : Type} (rej : Bool) (P : List Char → Option (V × Nat)) (s : List Char) (e : Nat)
+    (h : singleSkipPlus 0 e (s.getD 0 ' ') = false) :
+    readSingleG rej P s 0 e = if (P (s.take e)).isSome then P (s.take e) else none := by
+  unfold readSingleG
+  simp only [h, Bool.false_and, Bool.false_eq_true, if_false, singleFails]
+  cases hp : P (s.take e) with
+  | none => simp [hp]
+  | some vk => obtain ⟨v, k⟩ := vk; simp [hp]
+
+/-- **`+-…` with the check**: whatever the oracle, the token is rejected -/
+theorem readSingleG_plusminus_rejected {V : Type} (P : List Char → Option (V × Nat)) (X : List Char) (e : Nat)
+    (he : 2 ≤ e) : readSingleG true P ('+' :: '-' :: X) 0 e = none := by
+  have h1 : (0 != e) = true := by simp; omega
+  have h2 : (1 != e) = true := by simp; omega
+  simp [readSingleG, singleSkipPlus, h1, h2]
+
+/-- **`+-…` without the check** (csv.tpp until the finding is fixed): the `+` is skipped and the oracle
+    (`from_chars`, which accepts a minus sign) decides on the rest — `+-3` is read as `-3` -/
+theorem readSingleG_plusminus_accepted {V : Type} (P : List Char → Option (V × Nat)) (X : List Char) (e : Nat)
+    (he : 2 ≤ e) (v : V) (k : Nat) (hP : P (('-' :: X).take (e - 1)) = some (v, k)) :
+    readSingleG false P ('+' :: '-' :: X) 0 e = some (v, 1 + k) := by
+  have h1 : (0 != e) = true := by simp; omega
+  obtain ⟨e', rfl⟩ : ∃ e', e = e' + 1 := ⟨e - 1, by omega⟩
+  simp only [Nat.add_sub_cancel] at hP
+  simp [readSingleG, singleSkipPlus, h1, singleFails, hP]
 
 theorem shifted_zero (M : List Char) :
     shifted M 0 = ⟨M.take 64, min 64 M.length, decide (64 < M.length)⟩ := by simp [shifted]
@@ -337,7 +370,7 @@ theorem read_emptyline {V : Type} (P : List Char → Option (V × Nat)) (hP0 : P
   cases k' with
   | false =>
     refine ⟨.conv, ⟨[], 0, false⟩, ⟨tail, tail.isEmpty, false⟩, Or.inr rfl, ?_, rfl⟩
-    simp [Alpaqa.C17.read, chunkPhase, readCallsChunk, readParse, readBufend, readSingleBegin, readSingle,
+    simp [Alpaqa.C17.read, chunkPhase, readCallsChunk, readParse, readBufend, readSingleBegin, readSingle, readSingleG,
       singleSkipPlus, hP0, singleFails]
   | true =>
     rcases ht with rfl | ⟨t, rfl⟩
@@ -941,7 +974,7 @@ theorem core_too_few_last {V : Type} (P : List Char → Option (V × Nat)) (hP0 
   have hcan2 : Canon L tail (shifted (M.drop j) R.length) (streamOf (M.drop j) tail) [] :=
     ⟨M.drop j, R.length, (List.drop_suffix j M).trans hM, by rw [← hrem]; omega, rfl, rfl, by rw [← hrem]; simp⟩
   obtain ⟨r1, is1, hr2⟩ := canon_read_unparsable P sep L tail ctx.hL ctx.ht []
-    (by simp [readSingle, singleSkipPlus, hP0, singleFails]) _ _ hcan2
+    (by simp [readSingle, readSingleG, singleSkipPlus, hP0, singleFails]) _ _ hcan2
   refine ⟨is1, ?_⟩
   rw [rowStream, hrow (m + 2), readFields_succ_ok P (m + 1) _ _ sep v _ _ hr,
     readFields_succ_err P m _ _ sep .conv r1 is1 hr2]
